@@ -52,6 +52,14 @@ func VerifyFunction(p *Prog, fn *ssa.Function, c *Contract) (vc *VC) {
 			f.vars[name] = scopeVar{t, prm.Type()}
 		}
 	}
+	for i, prm := range fn.Params {
+		// a renamed parameter is still reachable under the name the contract uses
+		if old := p.contractName(fn, prm.Name()); old != prm.Name() && i < len(f.params) {
+			if _, taken := f.vars[old]; !taken {
+				f.vars[old] = scopeVar{f.params[i].T, prm.Type()}
+			}
+		}
+	}
 	if c != nil && c.RecvAlias != "" && len(fn.Params) > 0 && fn.Signature.Recv() != nil {
 		f.vars[c.RecvAlias] = scopeVar{f.params[0].T, fn.Params[0].Type()}
 	}
